@@ -84,6 +84,68 @@ impl Monitor for C07 {
             let a = DecV { neg: true, mant: 39614081257132168796771975167, scale: 0 };
             ctx.check(&Case::new(ev, "depth1", "@%0.200000000000000000000000002", Val::D(a)), &|c, st| self.judge(c, st));
         }
+        // chains built to be exact at every step: x = q*a*b (*c) with small coefficients and scales that
+        // add up to at most 28, written x/a/b, x/a*b, x/(a*b), q*a*b, x/a/b/c, x%a ... - so the exact
+        // quotient is known to be representable whatever the scales of the operands (sum of the divisors'
+        // scales beyond 28, trailing zeros, a divisor of 1e-28). A chain evaluated in another association
+        // (x/(a*b) with a rounded product - seeded change C07-r9) leaves the exact value.
+        let nq = ctx.tier.pick(40_000u64, 800_000);
+        for i in 0..nq {
+            if !ctx.mine() {
+                continue;
+            }
+            let mut rng = ctx.rng("quotient-chain", i);
+            let small = |rng: &mut Rng| -> u128 { *rng.pick(&[1u128, 2, 3, 5, 7, 4, 15, 21, 25, 125, 375, 9, 11, 13, 101, 999][..]) };
+            // scales: either three parts of a budget of at most 28, or two divisors of any scale (their
+            // scales may add up to 56) under a quotient that is a multiple of a power of ten, so that the
+            // dividend still has at most 28 fractional digits
+            let lit = |m: u128, sc: u32| dec_text(&DecV { neg: false, mant: m, scale: sc });
+            let (ma, mb, mq) = (small(&mut rng), small(&mut rng), small(&mut rng));
+            let (a, b, q, x, xa);
+            if rng.chance(1, 2) {
+                let total = if rng.chance(2, 3) { 20 + rng.below(9) } else { rng.below(29) } as u32;
+                let sa = rng.below(total as usize + 1) as u32;
+                let sb = rng.below((total - sa) as usize + 1) as u32;
+                let sq = total - sa - sb;
+                a = lit(ma, sa);
+                b = lit(mb, sb);
+                q = lit(mq, sq);
+                x = lit(mq * ma * mb, sa + sb + sq);
+                xa = lit(mq * ma, sa + sq);
+            } else {
+                let sa = 8 + rng.below(21) as u32;
+                let sb = 8 + rng.below(21) as u32;
+                let k = (sa + sb).saturating_sub(28) + rng.below(3) as u32;
+                let k = k.min(sa + sb).min(sa); // the quotient q*10^k and the partial result q*a stay plain decimals
+                if sa + sb - k > 28 {
+                    continue;
+                }
+                let p10 = |e: u32| 10u128.pow(e);
+                a = lit(ma, sa);
+                b = lit(mb, sb);
+                q = lit(mq * p10(k), 0);
+                x = lit(mq * ma * mb, sa + sb - k);
+                xa = lit(mq * ma, sa - k);
+            }
+            let s = match rng.below(9) {
+                0 => format!("{}/{}/{}", x, a, b),
+                1 => format!("{}/{}/{}", x, b, a),
+                2 => format!("{}/({}*{})", x, a, b),
+                3 => format!("{}*{}*{}", q, a, b),
+                4 => format!("{}/{}*{}", xa, a, b),
+                5 => format!("({}/{})/{}", x, a, b),
+                6 => format!("{}/{}/{}/{}", x, a, b, q),
+                7 => format!("{}%{}", x, a),
+                _ => format!("-{}/{}/-{}", x, a, b),
+            };
+            ctx.check(&Case::new(ev, "quotient-chain", &s, zero), &|c, st| {
+                let v = self.judge(c, st);
+                if let Verdict::Pass { .. } = v {
+                    st.inc("exact_chains_confirmed");
+                }
+                v
+            });
+        }
         // random operands of varied scale and magnitude
         let n1 = ctx.tier.pick(60_000u64, 1_000_000);
         for i in 0..n1 {
